@@ -135,6 +135,8 @@ def vapour(job, thorough=False):
                         a, b, c = 16.0, -3800.0, -200000.0
                     fc = _fcomp_edited(kind, a, b, c, "in_place")  # built the way the symbolic component is: constants assigned after construction
                     env = {"vpa_1": a, "vpb_1": b, "vpc_1": c, "T": t}
+                    if not job.on_path(leaf, env):
+                        continue
                     job.validated("P %s" % kind, close(terms.evaluate(lift(P), env), fc.get_vapor_pressure(t), 1e-9))
                     job.validated("H %s" % kind, close(terms.evaluate(lift(H), env), fc.get_vaporisation_heat(t), 1e-9))
     job.refute_concretely("C13/integer_temperatures", "vf.props.C13:concrete_integer_temperature", {})
